@@ -8,6 +8,7 @@
 //
 //	M1 stream integrity   m1.go   (race stage)
 //	M2 nonces             m1.go, m2f.go (transport write faults)   (race stage)
+//	M6 concurrent use of one connection  m6.go   (race stage)
 //	M3 ciphertext tamper  m3.go
 //	M4 handshake MITM     m4.go
 //	M5 transport identity m5.go
@@ -203,7 +204,7 @@ func Run(c *verdict.Ctx) int {
 	if os.Getenv(stageEnv) == "race" {
 		return runRaceChild(c)
 	}
-	c.Rule = "a case is non-trivial if ciphertext crossed an established real secret connection (M1/M2: both directions carried data; M3: an edit of the sealed stream was applied and the reader ran to its first error), or a hostile / malformed handshake was played against a real MakeSecretConnection to its conclusion (M4), or a real MultiplexTransport Dial/Accept was driven over loopback TCP (M5); distinct by monitor + scenario + generated parameters (write/read size lists, edit kind, frame index, byte offset, hostile variant); fresh keys alone do not make a case distinct"
+	c.Rule = "a case is non-trivial if ciphertext crossed an established real secret connection (M1/M2: both directions carried data; M6: several goroutines wrote to / read from the same connection; M3: an edit of the sealed stream was applied and the reader ran to its first error), or a hostile / malformed handshake was played against a real MakeSecretConnection to its conclusion (M4), or a real MultiplexTransport Dial/Accept was driven over loopback TCP (M5); distinct by monitor + scenario + generated parameters (write/read size lists, edit kind, frame index, byte offset, hostile variant); fresh keys alone do not make a case distinct"
 	c.Assume(
 		"ed25519, X25519, HKDF-SHA256, ChaCha20-Poly1305, Merlin and protobuf encoding are trusted (shared by the code under test and the independent raw peer)",
 		"the raw peer (raw.go) implements spec/p2p/peer.md; that it interoperates with the real code is itself checked by the M2 raw cases and the M4 control",
@@ -257,12 +258,17 @@ func runM12(c *verdict.Ctx, s sink, inRace bool) {
 		runM2Raw(c, s, "m2rawW", 0, rW)
 		runM2Raw(c, s, "m2rawR", 0, rR)
 		runM2Fault(c, s, 0, rFault(c))
+		w6, r6 := rM6(c)
+		runM6(c, s, 0, w6, 0, r6)
 		return
 	}
 	runM1(c, s, r1, n1)
 	runM2Raw(c, s, "m2rawW", rW, nW)
 	runM2Raw(c, s, "m2rawR", rR, nR)
 	runM2Fault(c, s, rFault(c), nFault(c))
+	w6, r6 := rM6(c)
+	n6w, n6r := nM6(c)
+	runM6(c, s, w6, n6w, r6, n6r)
 }
 
 func rFault(c *verdict.Ctx) int {
@@ -278,6 +284,8 @@ func runM12All(c *verdict.Ctx, s sink) {
 	runM2Raw(c, s, "m2rawW", 0, nW)
 	runM2Raw(c, s, "m2rawR", 0, nR)
 	runM2Fault(c, s, 0, nFault(c))
+	n6w, n6r := nM6(c)
+	runM6(c, s, 0, n6w, 0, n6r)
 }
 
 func runRaceChild(c *verdict.Ctx) int {
@@ -323,7 +331,7 @@ func startRaceStage(c *verdict.Ctx) (wait func()) {
 		env = append(env, e)
 	}
 	env = append(env,
-		"GORACE=halt_on_error=0 log_path="+filepath.Join(tmp, "race"),
+		"GORACE=halt_on_error=0 exitcode=0 log_path="+filepath.Join(tmp, "race"),
 		stageEnv+"=race", stageOutEnv+"="+out,
 		fmt.Sprintf("VERIF_SEED=%d", c.Seed))
 	cmd.Env = env
@@ -339,7 +347,7 @@ func startRaceStage(c *verdict.Ctx) (wait func()) {
 		defer os.RemoveAll(tmp)
 		err := cmd.Wait()
 		r1, rW, rR := raceShare(c)
-		c.Set("race_stage", fmt.Sprintf("M1/M2 cases [0,%d) [0,%d) [0,%d) in %s under -race, %.1fs (concurrently with M3..M5)", r1, rW, rR, filepath.Base(bin), time.Since(start).Seconds()))
+		c.Set("race_stage", fmt.Sprintf("M1/M2 cases [0,%d) [0,%d) [0,%d) plus the M2 fault and M6 concurrent-use shares in %s under -race, %.1fs (concurrently with M3..M5)", r1, rW, rR, filepath.Base(bin), time.Since(start).Seconds()))
 		b, rerr := os.ReadFile(out)
 		if err != nil || rerr != nil {
 			c.HarnessError("race stage failed: run=%v read=%v", err, rerr)
@@ -395,6 +403,10 @@ func runReplay(c *verdict.Ctx, path string) int {
 		m2RawCase(c, c, h.Stream, h.Case)
 	case "m2fault":
 		m2FaultCase(c, c, h.Case)
+	case "m6w":
+		m6WCase(c, c, h.Case)
+	case "m6r":
+		m6RCase(c, c, h.Case)
 	case "m3":
 		m3Case(c, c, h.Case)
 	case "m4":
